@@ -38,6 +38,8 @@ def uexpr(n, params):
         return "UEIdType"
     if s == "str(self)":
         return "UEStrSelf"
+    if s == "str(escape(str(self)))":
+        return "UEEscStrSelf"
     if isinstance(n, ast.Call) and isinstance(n.func, ast.Attribute) and n.func.attr in ut.NAME_ID:
         m = ut.COQ_NAME[n.func.attr]
         args = [ast.unparse(a) for a in n.args] + ["**" + ast.unparse(k.value) for k in n.keywords if k.arg is None]
